@@ -38,6 +38,24 @@ TEXT = {
                 "assumed: broadcast delivery to every connection task (channel capacity), see DESIGN.md.",
         "technique": "Lean 4 proof (invariant by induction over operation histories + loop lemmas) + differential correspondence on command histories",
     },
+    "C01": {
+        "level": "Kernel-checked local theorems, for every state, block and reply: a piece file is written only under the listed hash of the piece being "
+                 "downloaded, only with contents hashing to it, only by a block answering an outstanding request, and is followed at once by PieceDone (T1); a "
+                 "hash mismatch writes nothing and ends the task with an error (T2), whereupon the manager's kill step resets the piece (C12); in the manager "
+                 "model a piece becomes owned only by pieceDone of the peer it is assigned to (T3, all ten event kinds). PARTIAL: the trace monitor P01 "
+                 "(C01_trace_full) is evaluated on model and implementation traces on every run; its proof for all scripts is not finished. sha1 is a parameter.",
+        "note": KERNEL + "partial: composition of task and manager (System-level invariant over all interleavings of several peers) is argued from T1-T3 + C12 in DESIGN.md, not "
+                "yet a single kernel-checked theorem; file system and SHA-1 collisions outside.",
+        "technique": "Lean 4 proof (case analysis of handle_piece; manager invariant re-used) + trace monitor on model and implementation + differential correspondence",
+    },
+    "C11": {
+        "level": "Kernel-checked: the init bitfield has bit i set iff piece i is owned when Init is handled, spare bits zero, for every status vector (T1, via the C07 "
+                 "bit-position theorem); SendHave is held back while the peer chokes us and appended in broadcast order, else written at once (T3a); Unchoke writes all "
+                 "held-back announcements first, in order, leaving none (T3b); the manager broadcasts SendHave i only in the step that marks i owned (T2). PARTIAL: the "
+                 "trace monitor P11 (C11_trace_full) is evaluated on model and implementation traces on every run; its proof for all scripts is not finished.",
+        "note": KERNEL + "assumption made explicit: the broadcast channel never overflows (Lagged receivers lose announcements).",
+        "technique": "Lean 4 proof (local theorems about SendHave / Unchoke / Init) + trace monitor on model and implementation + differential correspondence",
+    },
     "C10": {
         "level": "Kernel-checked for every piece length and every positive block size: PieceRx::left yields blocks (kB, min(B, len-kB)) for k < ceil(len/B), each "
                  "non-empty and <= B, contiguous from 0, lengths summing to len (T1_blocks_tile_the_piece; B = 16384 by decide), and new_piece_request writes exactly "
